@@ -2,7 +2,7 @@
    Models: Layout/Resample.v (map_between_resolutions per wavenumber vector; tied to the code by exact correspondence of which modes are
    kept and by float comparison of the resampled spectra), Layout/Freq.v (mode slices), DFT/DFT1.v (interpolation). *)
 From Coq Require Import ZArith QArith List Bool Lia.
-From EXV Require Import Base.Scalar Base.FieldLemmas Layout.Freq Layout.FreqProofs Layout.Resample Layout.ResampleProofs DFT.DFT1.
+From EXV Require Import Base.Scalar Base.FieldLemmas Layout.Freq Layout.FreqProofs Layout.Resample Layout.ResampleProofs DFT.DFT1 IC.Normalize DFT.DFTD.
 Import ListNotations.
 Local Open Scope fld_scope.
 Ltac splits := repeat match goal with |- _ /\ _ => split end.
@@ -16,6 +16,14 @@ Theorem C15_interpolation_exact : forall (F : FieldT) (n : nat) (w w' : F),
   bsum n (fun k => dft n w (fun j => bsum n (fun m => a m * fpow w' (j * m))) k / fz (Z.of_nat n) * chi k) = bsum n (fun m => a m * chi m).
 Proof. intros F n w w' Hn H1 H2 H3 a chi. apply (interpolation_exact F n w w'); assumption. Qed.
 Print Assumptions C15_interpolation_exact.
+
+(* the same in every dimension D (D-fold iterated transform): the samples of p on the n^D grid are n^D idftI(a) *)
+Theorem C15_interpolation_exact_any_dimension : forall (F : FieldT) (n : nat) (w w' : F),
+  (0 < n)%nat -> fpow w n = 1 -> (forall m, (0 < m < n)%nat -> fpow w m <> 1) -> w * w' = 1 ->
+  forall (D : nat) (a chi : list nat -> F),
+  sumD F D n (fun k => dftD n D w (fun j => npts F D n * idftI n D w' a j) k / npts F D n * chi k) = sumD F D n (fun m => a m * chi m).
+Proof. intros F n w w' Hn H1 H2 H3 D a chi. apply (interpolation_exact_D F n w w'); assumption. Qed.
+Print Assumptions C15_interpolation_exact_any_dimension.
 
 Theorem C15_interpolant_reproduces_grid_values : forall (F : FieldT) (n : nat) (w w' : F),
   (0 < n)%nat -> fpow w n = 1 -> (forall m, (0 < m < n)%nat -> fpow w m <> 1) -> w * w' = 1 ->
